@@ -171,7 +171,8 @@ def explore(chk):
                  sample={"source": src, "writer": wname, "options": opts} if chk.count_get("n") in (2, 100) else None)
         chk.count("n"); chk.count("src_" + src.split(":")[0]); chk.count("w_" + wname)
         try:
-            doc = W(**opts).write(cs, force=force) if force else W(**opts).write(cs)
+            wobj = core.POOL.get(W, **opts)
+            doc = wobj.write(cs, force=force) if force else wobj.write(cs)
         except Exception as e:
             chk.property_failure(dict(case, error=repr(e)[:300]), "%s writer raised %s" % (wname, type(e).__name__)); continue
         case["output"] = doc[:4000]
